@@ -62,10 +62,23 @@ def parse_vspec(path):
             mode[1]["spec"] = "\n".join(lines[2:])
         elif kind in ("hoist", "chain"):
             lines = [l for l in buf if l.strip()]
+            # `alt: <text>` starts an alternative: another verbatim text of the same chain, followed by the spec assumed for that text
+            alts = []
+            main = []
+            for l in lines:
+                if l.strip().startswith("alt:") and kind == "hoist":
+                    alts.append({"pin": l.strip()[4:].strip(), "spec": ""})
+                elif alts:
+                    alts[-1]["spec"] += l + "\n"
+                else:
+                    main.append(l)
+            lines = main
             pins = [l for l in lines if l.strip().startswith("pin:")]
             lines = [l for l in lines if not l.strip().startswith("pin:")]
             if pins and kind == "hoist":
                 mode[1]["pin"] = pins[0].strip()[4:].strip()
+            if kind == "hoist":
+                mode[1]["alts"] = alts
             mode[1]["sig"] = lines[0].strip() if lines else ""
             mode[1]["spec"] = "\n".join(lines[1:])
         elif kind == "item_stub":
